@@ -68,7 +68,7 @@ func fixScen(s *Scen) {
 }
 
 func corr(o Opts) {
-	w := NewCaseWriter(o.Out, "cases", hdrScalar, "mism", 40)
+	w := NewCaseWriter(o.Out, "cases", hdrScalar, "mism", 120)
 	w.Type = "case"
 	w.Rule = "scalar: one operation under one alias pattern of receiver/operands/temporary (c=r|x|y, a=x|const, b=y|x|const, t=t|x|y), operand orders {0,1,2}^2, N in {1,2} (+ exotic Order 0/N>0, Order>=1/N=0), Real64 and Real32, receiver fresh / stale / other shape; non-trivial iff the receiver (or temporary) is an operand, or the call panics; distinct = (op, pattern, shapes, kind)"
 	emit := func(s *Scen, tag string) {
@@ -86,7 +86,7 @@ func corr(o Opts) {
 		w.Count(fmt.Sprintf("outcome:%d", c.Kind))
 		w.Count("stream:" + tag)
 	}
-	mw := NewCaseWriter(o.Out, "mat", hdrMat, "mmism", 60)
+	mw := NewCaseWriter(o.Out, "mat", hdrMat, "mmism", 150)
 	mw.Type = "mcase"
 	mw.Rule = "matrix/vector: one call (MdotM, MDOTM, MaddM/MsubM/MmulM, VaddV/VsubV/VmulV, MdotV, VdotM; DenseFloat64 and DenseReal64 matrices) whose receiver and operands are views (Slice/T chains, sub-slices) of shared integer-valued storages chosen by alias pattern; non-trivial iff the receiver shares storage with an operand; distinct = (call, pattern, headers)"
 	memit := func(c *MatCase) {
@@ -279,11 +279,11 @@ func tmpVsSeparate(s *Scen) (same bool, al, fr RegSnap, ka, kf int) {
 	in2.T = []int{8}
 	kf = execGo(regs2, &in2)
 	fr = normOf(snap(regs2[in2.C]))
+	if ka != 0 && kf != 0 {
+		return true, al, fr, ka, kf
+	}
 	if ka != kf {
 		return false, al, fr, ka, kf
-	}
-	if ka != 0 {
-		return true, al, fr, ka, kf
 	}
 	return snapEq(al, fr), al, fr, ka, kf
 }
